@@ -23,7 +23,7 @@ RULE = ("job lifecycles (enqueue with args bucket, consume, actor run, ack/nack/
 ASSUMPTIONS = ["ground truth is taken by a harness-side class-level wrapper around _middleware_wrapper.__call__ (no repository edit)", "virtual time",
                "the operation's first effect = the first event logged by the broker-boundary recorder inside the wrapped function"]
 EVAL_COUNTER = "operations_judged"
-REQUIRED = ["effects_located", "actor_run_effects_located", "operations_judged", "nested_operations_seen", "failed_operations_seen", "differential_pairs", "two_connection_runs", "op_actor_run", "op_store_bucket", "op_consume", "middleware_method_calls"]
+REQUIRED = ["effects_located", "actor_run_effects_located", "operations_judged", "nested_operations_seen", "failed_operations_seen", "differential_pairs", "two_connection_runs", "op_actor_run", "op_store_bucket", "op_consume", "middleware_method_calls", "twin_middleware_calls"]
 CASE_TIMEOUT = 150
 
 SUBSETS = ["none", "recording", "raising", "slow", "sync", "partial", "mixed"]
@@ -146,6 +146,25 @@ def make_subscribers(kind, label, signals, rig_log, names):
     return subs
 
 
+def make_twin_middlewares(label, rig_log, names):
+    """Two instances of ONE middleware class (their bound methods share the underlying functions)."""
+    ns = {}
+    for name in names:
+        def mk(name=name):
+            def m(self, key=None, result=None):
+                rig_log.add(k="twin_signal", name=name, conn=label, twin=self.tag)
+            m.__name__ = name
+            return m
+        ns[name] = mk()
+
+    def __init__(self, tag):
+        self.tag = tag
+
+    ns["__init__"] = __init__
+    cls = type("Tracer", (), ns)
+    return cls("a"), cls("b")
+
+
 def make_middleware_object(label, rig_log, names):
     """A middleware in the documented class form: an instance whose methods are named after signals (bound methods: `self`
     is part of their argspec), next to helper methods that are not signals and must never be called."""
@@ -214,6 +233,10 @@ async def lifecycle(loop, case, subset, record):
                     c.middleware.add_subscriber(f)
             if subset in ("partial", "mixed"):
                 c.middleware.add_middleware(make_middleware_object(lab, w.log, names))
+                # a second instance of the SAME class (two tracers with different settings): it is a subscriber of its own
+                twin_a, twin_b = make_twin_middlewares(lab, w.log, names)
+                c.middleware.add_middleware(twin_a)
+                c.middleware.add_middleware(twin_b)
                 # ... and the same thing handed over as a class: its functions require a `self` no signal supplies
                 c.middleware.add_middleware(type(make_middleware_object(lab + "-class", w.log, names)))
         for c in conns.values():
@@ -437,6 +460,13 @@ def judge_shapes(case, subset, rec, out, stats):
         if full[k] != meth[k]:
             out.append(V("missing_before" if k[1].startswith("before_") else "missing_after", case["kind"], "middleware-object-method", f"{k[1]} on {k[0]}: the plain subscriber was called {full[k]} times, the middleware object's method {meth[k]} times"))
             break
+    for tag in ("a", "b"):
+        twin = collections.Counter((e["conn"], e["name"]) for e in rec["events"] if e.get("k") == "twin_signal" and e.get("twin") == tag)
+        stats["twin_middleware_calls"] += sum(twin.values())
+        for k in sorted(set(full) | set(twin)):
+            if full[k] != twin[k]:
+                out.append(V("missing_before" if k[1].startswith("before_") else "missing_after", case["kind"], "second-instance-of-a-middleware-class", f"{k[1]} on {k[0]}: the plain subscriber was called {full[k]} times, instance {tag!r} of the Tracer class {twin[k]} times"))
+                break
     for k in sorted(set(full) | set(bare)):
         if full[k] != bare[k]:
             out.append(V("missing_before" if k[1].startswith("before_") else "missing_after", case["kind"], "subscriber-without-parameters", f"{k[1]} on {k[0]}: the fully declared subscriber was called {full[k]} times, the one without parameters {bare[k]} times"))
